@@ -975,6 +975,23 @@ theorem agreeAt (hlaws : EnvLaws env) : ∀ N, AgreeAt env N
   | 0 => agree_zero env
   | N + 1 => ⟨agree_bare_step env hlaws N (agreeAt hlaws N), agree_field_step env hlaws N (agreeAt hlaws N)⟩
 
+/-- **M2, model against oracle**: for a Go type `T` of the fragment (`fieldCodec N T oe = some c`: bool,
+int16/32/64, float32/64, string, `[]byte`, slices, string-keyed maps, pointers of any depth, structs
+whose fields are all encoded under distinct names and carry arbitrary `omitempty` tags, `time.Time`
+with the default string schema, `null.*`), its codec `c` and a well-typed value `g`, what the codec
+model reads back (`normCodec … c g`, by `roundTrip`) and the written value agree up to the documented
+normalisations and the three recorded deviations D27, D30, D32:
+`normSpec T (normCodec c g) = normSpecD 7 T g`.
+Excluded: named (`custom`) types, uint/int8/complex/array kinds, structs with skipped (unexported or
+"-") fields or clashing names, non-default time schemas (long / date logical types), `null.Float`
+under a `float` schema; for those nothing is claimed. That `fieldCodec` is the codec the builder model
+yields for the generated schema is checked on concrete types only (`example … tBig`, `cPP_built`, …),
+not proved in general. -/
+theorem normSpec_agrees (hlaws : EnvLaws env) (N M n n' : Nat) (T : GoType) (oe : Bool) (c : Codec) (g : GoVal)
+    (hc : fieldCodec N T oe = some c) (ht : Typed M T g) (hn : N ≤ n) (hn' : N ≤ n') :
+    normSpec n' T oe (normCodec env n c g) = normSpecD 7 n' T oe g :=
+  (agreeAt env hlaws N).field T oe c g M n n' hc ht hn hn'
+
 end
 
 end Avro
